@@ -88,11 +88,12 @@ type Node struct {
 
 // NodeConfig describes a node.
 type NodeConfig struct {
-	IP       string // loopback alias to listen on and dial from
-	Blocks   int    // blocks to mine before start
-	Linger   func() time.Duration
-	DialWait func() time.Duration
-	Opts     []syncer.Option
+	IP        string // loopback alias to listen on and dial from
+	Blocks    int    // blocks to mine before start
+	Linger    func() time.Duration
+	LingerRun func() time.Duration // delay of the listener Close issued by Run
+	DialWait  func() time.Duration
+	Opts      []syncer.Option
 }
 
 // NewNode builds (but does not run) a node.
@@ -111,6 +112,7 @@ func (w *World) NewNode(c NodeConfig) (*Node, error) {
 		return nil, fmt.Errorf("listen on %s: %w", c.IP, err)
 	}
 	n := &Node{W: w, IP: c.IP, Addr: l.Addr().String(), Real: cm, CM: NewGateCM(cm), PS: NewRecPeerStore(), L: NewSlowListener(l, c.Linger), runDone: make(chan struct{})}
+	n.L.LingerAgain = c.LingerRun
 	n.D = &DelayDialer{LocalIP: c.IP, Delay: c.DialWait}
 	opts := append([]syncer.Option{syncer.WithDialer(n.D)}, c.Opts...)
 	n.S = syncer.New(n.L, n.CM, n.PS, gateway.Header{GenesisID: w.Genesis.ID(), UniqueID: w.UniqueID(), NetAddress: n.Addr}, opts...)
